@@ -37,7 +37,7 @@ def step (base : Bool) (st : St) (j : Json) : Except String (St × String) := do
     let b' := onSuccess F st.b t
     pure ({ st with b := b' }, "- " ++ showTB b')
   | "mgr" => pure ({ st with tbl := [], maxB := ← nat j "max" }, "ok")
-  | "get" =>
+  | "get" | "mfail" | "msucc" =>
     let host ← str j "host"
     let tbl := getBucket F st.maxB st.tbl host
     pure ({ st with tbl := tbl }, s!"size={tbl.length}")
